@@ -75,18 +75,29 @@ ActiveLines(lines, cc) ==
 -----------------------------------------------------------------------------
 (* Key/value documents (split_kv_pairs).                                    *)
 (* line: [t : pair|bare|comment|blank, k, v, c : has an inline comment]     *)
-(* doc : [lines, sep, cc (comment string), part (use_partition)]            *)
+(* doc : [lines, sep, cc (comment string; <<>> = comment_char None: the text  *)
+(*        then has no comments and no blank lines), part (use_partition),     *)
+(*        filt (filter_string; <<>> = none)]                                  *)
 KvLine(t, key, v, c) == [t |-> t, k |-> key, v |-> v, c |-> c]
 AdmitsKv(d) ==
-    /\ d.sep # <<>> /\ d.cc # <<>> /\ NoBlank(d.sep) /\ NoBlank(d.cc)
+    /\ d.sep # <<>> /\ NoBlank(d.sep) /\ NoBlank(d.cc)
+    /\ d.cc = <<>> => \A i \in DOMAIN d.lines : d.lines[i].t \in {"pair", "bare"} /\ ~d.lines[i].c
+    \* a filter is a word that can only be found inside a key or inside a value
+    /\ NoBlank(d.filt) /\ \A i \in DOMAIN d.filt : d.filt[i] \notin Rng(d.sep) \cup Rng(d.cc)
     /\ \A i \in DOMAIN d.lines : LET ln == d.lines[i] IN
          /\ ln.t \in {"pair", "bare", "comment", "blank"}
          /\ ln.t \in {"pair", "bare"} =>
-              /\ ln.k # <<>> /\ IsStripped(ln.k) /\ ~Contains(ln.k, d.sep) /\ ~Contains(ln.k, d.cc)
-         /\ ln.t = "pair" => IsStripped(ln.v) /\ ~Contains(ln.v, d.cc)        \* the separator MAY occur in a value
+              /\ ln.k # <<>> /\ IsStripped(ln.k) /\ ~Contains(ln.k, d.sep) /\ (d.cc # <<>> => ~Contains(ln.k, d.cc))
+         /\ ln.t = "pair" => IsStripped(ln.v) /\ (d.cc # <<>> => ~Contains(ln.v, d.cc))   \* the separator MAY occur in a value
          \* the comment string must not come about where key, separator and value meet
-         /\ ln.t = "pair" => ~Contains(ln.k \o d.sep \o ln.v, d.cc) /\ Find(ln.k \o d.sep, d.sep) = Len(ln.k) + 1
-KvContrib(d, ln) == ln.t = "pair" \/ (ln.t = "bare" /\ d.part)    \* a line without separator counts only with use_partition
+         /\ ln.t = "pair" => /\ d.cc # <<>> => ~Contains(ln.k \o d.sep \o ln.v, d.cc)
+                             /\ Find(ln.k \o d.sep, d.sep) = Len(ln.k) + 1
+(* filter_string: only lines whose ACTIVE part (comment removed) contains the *)
+(* filter are processed - a comment never makes a line pass                   *)
+KvPasses(d, ln) == d.filt = <<>> \/ Contains(ln.k, d.filt) \/ (ln.t = "pair" /\ Contains(ln.v, d.filt))
+KvContrib(d, ln) ==                                  \* a line without separator counts only with use_partition
+    /\ ln.t = "pair" \/ (ln.t = "bare" /\ d.part)
+    /\ KvPasses(d, ln)
 KvSeq(d) == LET ls == SelectSeq(d.lines, LAMBDA ln : KvContrib(d, ln)) IN
             [i \in 1..Len(ls) |-> [k |-> ls[i].k, v |-> IF ls[i].t = "pair" THEN ls[i].v ELSE <<>>]]
 NormalKv(d) == Dedup(KvSeq(d))
@@ -163,7 +174,8 @@ QKey(kw)     == IF HasSuffix(kw) THEN BeforeFirst(kw, Dunder) ELSE kw           
 QMatcher(kw) == IF HasSuffix(kw) THEN AfterFirst(kw, Dunder) ELSE <<>>
 NormKey(key) == Subst(key, {" ", "-"}, "_")                                        \* "fix-up path" is found as fix_up_path
 RowKeys(row) == {row[i].k : i \in DOMAIN row}
-Universe(rows, rkc) == IF rkc THEN UNION {RowKeys(rows[r]) : r \in DOMAIN rows} ELSE RowKeys(rows[1])
+Universe(rows, rkc) == IF rows = <<>> THEN {}
+                       ELSE IF rkc THEN UNION {RowKeys(rows[r]) : r \in DOMAIN rows} ELSE RowKeys(rows[1])
 Resolves(rows, rkc, kw) == \E key \in Universe(rows, rkc) : NormKey(key) = QKey(kw)
 Resolve(rows, rkc, kw)  == CHOOSE key \in Universe(rows, rkc) : NormKey(key) = QKey(kw)
 Holds(m, s, v) ==
@@ -241,7 +253,7 @@ KvLines  == {KvLine("pair", key, v, c) : key \in KvKeys, v \in KvVals, c \in {FA
             \cup {KvLine("pair", key, v, TRUE) : key \in KvKeys, v \in (IF Deep THEN {X, <<"x", "=", "y">>} ELSE {X})}
             \cup {KvLine("bare", key, <<>>, c) : key \in KvKeys, c \in {FALSE}}
             \cup {KvLine("comment", <<>>, <<>>, FALSE), KvLine("blank", <<>>, <<>>, FALSE)}
-KvInputs(nb) == [lines : SeqsUpTo(KvLines, nb), sep : {<<"=">>}, cc : {<<"#">>}, part : BOOLEAN]
+KvInputs(nb) == [lines : SeqsUpTo(KvLines, nb), sep : {<<"=">>}, cc : {<<"#">>}, part : BOOLEAN, filt : {<<>>, A, X}]
 
 ActChars  == {"a", " ", "#"}
 ActInputs(nb) == [lines : SeqsUpTo(SeqsUpTo(ActChars, 4), 1) \cup SeqsOf(SeqsUpTo(ActChars, 2), 2), cc : {<<"#">>}]
@@ -260,7 +272,8 @@ RowSeqs(cols, nb) ==
     ELSE SeqsUpTo(RowSet(cols, TRUE), nb)
 Edge(hi, junk, ti, foot) == [hi |-> hi, junk |-> junk, ti |-> ti, foot |-> foot]
 JunkLine == <<"#", " ", "j">>   FootLine == <<"-", "-", " ", "f">>   Ti == <<"-", "-">>
-Edges    == {Edge(FALSE, <<>>, <<>>, <<>>), Edge(TRUE, <<JunkLine, <<>>>>, Ti, <<FootLine, <<>>>>)}
+BlankLn  == <<" ", " ">>                       \* a line of blanks only (the driver also renders "", 1-4 blanks, a tab)
+Edges    == {Edge(FALSE, <<>>, <<>>, <<>>), Edge(TRUE, <<JunkLine, BlankLn>>, Ti, <<FootLine, BlankLn>>)}
 NoEdge == Edge(FALSE, <<>>, <<>>, <<>>)
 FixedCols     == UNION {ColSeqs(m, pad) : m \in 1..3, pad \in (IF Deep THEN {1, 2, 3} ELSE {1, 2})}
 (* junk / footer / margin variants: not for the two-row tables of the thorough tier (volume) *)
